@@ -50,6 +50,11 @@ theorem holding_waiting_consistent {s : State} (h : Reachable s) (i : Nat) :
   · have := ((I.linv k).wok (wt w) (List.mem_map_of_mem hw)).1
     simpa [wt, e] using this
 
+/-- A task never waits for a lock it holds itself. -/
+theorem waits_not_for_own_lock {s : State} (h : Reachable s) {i k : Nat}
+    (hp : (s.tasks i).pos = .acq k) : (s.locks k).owner ≠ some i :=
+  fun e => (lock_inv h).waitNotOwn i k hp ((((lock_inv h).linv k).ownerOwns i).mp e)
+
 /-- **No lost wake-up.**  A free lock with queued waiters always has a wake-up in flight: some
     queued waiter's future is done, or a queued waiter's task sits in the ready queue with an
     exception pending (it was interrupted while its future was still pending). -/
